@@ -245,7 +245,9 @@ class SlurmScriptAdapter(SchedulerScriptAdapter):
 
         if retcode == 0:
             LOGGER.info("Submission returned status OK.")
-            jid = re.search('[0-9]+', output).group(0)
+            # Prefer the acceptance line; other text before it may hold digits.
+            jid = (re.search(r'Submitted batch job\s+([0-9]+)', output)
+                   or re.search('([0-9]+)', output)).group(1)
             return SubmissionRecord(SubmissionCode.OK, retcode, jid)
         else:
             LOGGER.warning(
